@@ -72,7 +72,17 @@ def run_plan(prop, tier, seed, t0, mcs, traces, level, assumptions, rule, tagger
     stats_total = {}
     for tr in traces:
         prefix = os.path.join(WORK, prop, "tr_" + tr["name"])
-        summ = record(tr["engine"], prefix, tr.get("shards", 2 * NCPU), ["--seed", seed] + tr["args"], tr.get("rec_timeout", 3000))
+        try:
+            summ = record(tr["engine"], prefix, tr.get("shards", 2 * NCPU), ["--seed", seed] + tr["args"], tr.get("rec_timeout", 3000))
+        except CodeCrash as cc:
+            nviol += 1
+            pth = write_violation(prop, nviol, {"kind": "crash", "predicate": "NoCrash", "engine": cc.engine, "exit_status": cc.rc,
+                                                "recorder_args": cc.rec_args, "stderr_tail": cc.stderr, "seed": seed, "tier": tier,
+                                                "what": "the recorder process was killed by a fatal signal raised in the code under test "
+                                                        "(stack overflow / abort / segmentation fault); re-run `qxv record <engine> <args>` to reproduce"})
+            log(f"VIOLATION property={prop} replay={pth}")
+            tr_results.append({"name": tr["name"], "engine": tr["engine"], "summary": {"groups": 0, "lines": 0, "crashed": True}, "validate_wall_s": 0, "violations": 1})
+            continue
         # registry for bin/selftest.py (which trace spec reads which recorded file)
         with open(os.path.join(WORK, prop, "tr_" + tr["name"] + ".spec.json"), "w") as f:
             json.dump({"module": tr["module"], "cfg": tr["cfg"], "engine": tr["engine"], "prefix": prefix}, f)
@@ -157,12 +167,16 @@ def plan_C04(prop, tier, seed, t0):
              module="Trace_Rules.tla", cfg="Trace_Rules.cfg"),
         dict(name="randgl", engine="rules", args=["--random", 300 if q else 4000, "--rand", "kind=gl,maxsp=6,maxb=3,phs=01246"],
              module="Trace_Rules.tla", cfg="Trace_Rules.cfg"),
+        # phases that are not multiples of pi/4 (every rule x argument tuple; float reference evaluator; SoundFloat / RejectIsNoopFloat)
+        dict(name="generic", engine="rules", args=["--generic", 300 if q else 3000], shards=max(2, NCPU // 2),
+             module="Trace_Rules.tla", cfg="Trace_Rules.cfg"),
     ]
     return run_plan(prop, tier, seed, t0, mcs, traces, "model_checking", COMMON_ASSUME,
                     "MC: every diagram of the family x every rule x every argument tuple on the specification; "
                     "TRACE: one execution = one diagram on which all 15 rules x all argument tuples (vertices, equal pairs, "
                     "boundaries, two missing names) were tried in both backends; non-trivial = accepted applications, "
-                    "each decided by Den(post) = Den(pre) in TLC")
+                    "each decided by Den(post) = Den(pre) in TLC"
+                    "; GENERIC: the clause 'to floating-point tolerance' - seeded inputs whose phases are NOT multiples of pi/4 (n/d, d in 3,5,6,7,8,12,16; float-approximate scalars): the harness compares with its independent float reference evaluator (harness/src/refeval.rs, validated entry by entry against the exact Den / CircSem by Trace_Tensor!RefEvalOK in the C08 check) at 1e-9 and logs booleans, TLC judges them")
 
 
 def plan_C01(prop, tier, seed, t0):
@@ -178,6 +192,8 @@ def plan_C01(prop, tier, seed, t0):
         # hook H3: every rule application of 11 simplifiers, each validated as a step of spec/Simp.tla from the previous recorded diagram
         dict(name="steps_fam", engine="simp", args=["--steps", "--fam", "k=2,tys=ZX,phs=0124,ets=NH,nb=2,bb=1", "--stride", 80 if q else 8], **T),
         dict(name="steps_rand", engine="simp", args=["--steps", "--random", 120 if q else 2500, "--rand", "kind=gl,maxsp=6,maxb=3,gadgets=3"], **T),
+        # phases that are not multiples of pi/4 (all 15 simplifiers, both backends; float reference evaluator; SoundFloat)
+        dict(name="generic", engine="simp", args=["--generic", 1000 if q else 8000], shards=max(2, NCPU // 2), **T),
     ]
     return run_plan(prop, tier, seed, t0, mcs, traces, "model_checking", COMMON_ASSUME,
                     "MC: every firing order of the full_simp rule set (superset of every strategy) from every diagram of the family, "
@@ -186,7 +202,8 @@ def plan_C01(prop, tier, seed, t0):
                     "each decided by Den(post) = Den(pre) in TLC; STEPS (hook H3): every single rule application / pack / x_to_z / gadget batch "
                     "step made by 11 simplifiers is logged with the diagram after it and checked to be a step of spec/Simp.tla from the "
                     "previously logged diagram (matcher true, Apply of that rule with those arguments incl. exact scalar, rule in the strategy's "
-                    "set, returned diagram = last step): the real schedule is a path of the transition relation MC_Simp explores (L1)",
+                    "set, returned diagram = last step): the real schedule is a path of the transition relation MC_Simp explores (L1)"
+                    "; GENERIC: the clause 'to floating-point tolerance' - seeded inputs whose phases are NOT multiples of pi/4 (n/d, d in 3,5,6,7,8,12,16; float-approximate scalars): the harness compares with its independent float reference evaluator (harness/src/refeval.rs, validated entry by entry against the exact Den / CircSem by Trace_Tensor!RefEvalOK in the C08 check) at 1e-9 and logs booleans, TLC judges them",
                     extra_cov_fn=lambda st, groups: {"rule_applications_validated": st.get("steps", 0), "rule_applications_conforming": st.get("steps_ok", 0)})
 
 
@@ -239,6 +256,8 @@ def plan_C02(prop, tier, seed, t0):
         # measurements with explicit outcome variables (shared, mixed with fresh ones, parities), also via QASM `measure` statements
         dict(name="vars", engine="tograph", args=["--random", 30 if q else 1500, "--alphabet", "all", "--maxq", 3, "--maxlen", 7, "--vars", "--meas-boost",
                                                   "--direct-every", 3], **C),
+        # rz / rx / parity-phase angles that are not multiples of pi/4 (4 modes x 2 backends; float reference evaluators; TranslatedFloat)
+        dict(name="generic", engine="tograph", args=["--generic", 400 if q else 3000], shards=max(2, NCPU // 2), **C),
     ]
     return run_plan(prop, tier, seed, t0, mcs, traces, "model_checking", COMMON_ASSUME,
                     "MC: the transcribed translation ToGraph vs the gate-matrix semantics CircSem for every circuit over the alphabet up to "
@@ -247,7 +266,8 @@ def plan_C02(prop, tier, seed, t0):
                     "gate through the public Gate::add_to_graph (caller-owned permuted qubit map, caller-chosen first fresh variable), circuits "
                     "whose measurements carry explicit variables (shared / mixed with fresh ones) and circuits handed over as QASM text with "
                     "measure statements; every translation of a non-empty circuit is non-trivial and decided by "
-                    "Den(diagram) = CircSem(circuit) under every outcome assignment in TLC; circuits containing UnknownGate are only recorded")
+                    "Den(diagram) = CircSem(circuit) under every outcome assignment in TLC; circuits containing UnknownGate are only recorded"
+                    "; GENERIC: the clause 'to floating-point tolerance' - seeded inputs whose phases are NOT multiples of pi/4 (n/d, d in 3,5,6,7,8,12,16; float-approximate scalars): the harness compares with its independent float reference evaluator (harness/src/refeval.rs, validated entry by entry against the exact Den / CircSem by Trace_Tensor!RefEvalOK in the C08 check) at 1e-9 and logs booleans, TLC judges them")
 
 
 def plan_C15(prop, tier, seed, t0):
@@ -290,6 +310,13 @@ def plan_C08(prop, tier, seed, t0):
         dict(name="api", engine="tensor", args=["--helpers", 1500 if q else 30000, "--objects", 160 if q else 3000, "--qops", 400 if q else 8000,
                                                 "--plug", 200 if q else 4000, "--unsupported",
                                                 "--wide", 45 if q else 400, "--wide7", "--wide-ops", 16 if q else 120], **T),
+        # --ref: every header of this trace also carries the tensor of the harness's FLOAT reference evaluator (refeval.rs), which TLC
+        # compares entry by entry with the exact Den / CircSem (RefEvalOK): the oracle of all generic-phase tiers is a checked artefact
+        # (pi/4 family, random diagrams and circuits, plus pi/4 inputs of the shapes the generic tiers use); --generic N: diagrams and
+        # circuits whose phases are not multiples of pi/4, to_tensorf and to_tensor4 against that oracle (FloatTensorOK, Tensor4FloatOK)
+        dict(name="generic", engine="tensor", args=["--ref", "--fam", "k=2,tys=ZX,phs=01247,ets=NH,nb=2,bb=1", "--enum", "2,2,small", "--stride", 41 if q else 5,
+                                                    "--random", 300 if q else 4000, "--rand", "maxsp=7,maxb=4", "--random-circuits", 150 if q else 2000,
+                                                    "--generic", 400 if q else 4000], shards=NCPU, **T),
     ]
     return run_plan(prop, tier, seed, t0, mcs, traces, "model_checking", COMMON_ASSUME + [
                         "the float-typed comparison helpers cross-multiply in floating point: a 'proportional' verdict is only demanded where "
@@ -306,7 +333,8 @@ def plan_C08(prop, tier, seed, t0):
                     "judged by equality / ProjEq of the logged exact tensors; QubitOps ident, delta, cphase, hadamard and sequences of "
                     "hadamard_at / cphase_at / delta_at with caller-chosen index positions judged entry by entry against Circuit.tla's gate "
                     "application (App1 with MHad, AppDiag) and IdTensor; plug_n_qubits against Compose; circuits on 6 and 7 qubits and the "
-                    "same operations on ident(6) because tensor code is size dependent (parallel zip, broadcasting)")
+                    "same operations on ident(6) because tensor code is size dependent (parallel zip, broadcasting)"
+                    "; GENERIC: the clause 'to floating-point tolerance' - seeded inputs whose phases are NOT multiples of pi/4 (n/d, d in 3,5,6,7,8,12,16; float-approximate scalars): the harness compares with its independent float reference evaluator (harness/src/refeval.rs, validated entry by entry against the exact Den / CircSem by Trace_Tensor!RefEvalOK in the C08 check) at 1e-9 and logs booleans, TLC judges them")
 
 
 def plan_C11(prop, tier, seed, t0):
@@ -384,6 +412,9 @@ def plan_C03(prop, tier, seed, t0):
              args=["--random", 80 if q else 400, "--alphabet", "ct", "--minq", 2, "--maxq", 3, "--minlen", 6, "--maxlen", 30] + ([] if q else ["--thorough"])),
         dict(name="steps_enum", engine="xsteps", module="Trace_XSteps.tla", cfg="Trace_XSteps.cfg",
              args=["--enum", "2,4,cth", "--stride", 9 if q else 4]),
+        # source circuits with rz / rx / parity-phase angles that are not multiples of pi/4 through the promised strategy x extractor
+        # combinations, both backends (float gate-matrix evaluator, proportionality at 1e-9; ExtractOKFloat)
+        dict(name="generic", engine="extract", args=["--generic", 200 if q else 2000], shards=max(2, NCPU // 2), **T),
     ]
     return run_plan(prop, tier, seed, t0, mcs, traces, "model_checking", COMMON_ASSUME,
                     "MC: the extraction state machine of spec/Extract.tla (prepare frontier / gadget pivot / extract / Gauss-Jordan row operations "
@@ -400,7 +431,8 @@ def plan_C03(prop, tier, seed, t0):
                     "STEPS (hook H4): every phase of the real extraction loop (prepare / gadget / extract / gauss / perm) is logged with the remaining "
                     "diagram, the circuit so far and the frontier, and TLC checks that each is a transition of spec/Extract.tla from the previous "
                     "recorded state (PrepareSet, ApplyGenPivot on an allowed pair, ExtractAll, row operations = new CNOTs and an element of SlnChoices, "
-                    "permutation) and that ExtInv holds in the recorded states (diagrams up to 6 spiders); deviations are L1 drift, the result is judged as above",
+                    "permutation) and that ExtInv holds in the recorded states (diagrams up to 6 spiders); deviations are L1 drift, the result is judged as above"
+                    "; GENERIC: the clause 'to floating-point tolerance' - seeded inputs whose phases are NOT multiples of pi/4 (n/d, d in 3,5,6,7,8,12,16; float-approximate scalars): the harness compares with its independent float reference evaluator (harness/src/refeval.rs, validated entry by entry against the exact Den / CircSem by Trace_Tensor!RefEvalOK in the C08 check) at 1e-9 and logs booleans, TLC judges them",
                     extra_cov_fn=lambda st, groups: {"programs": groups, "disagreements_checked": st.get("extractions", 0) + st.get("cli", 0),
                                                      "extraction_phases_validated": st.get("steps", 0), "gauss_steps": st.get("gauss", 0), "gadget_pivots": st.get("gadget", 0)})
 
